@@ -18,7 +18,14 @@ def validate_decoded(obj):
       "the class bool is incompatible with the datatype\n"+
       "(accepted classes: str, int, float)")
   elif isinstance(obj, int):
-    pass
+    # the integer is written as it is and read back as a float
+    try:
+      representable = (float(obj) == obj)
+    except OverflowError:
+      representable = False
+    if not representable:
+      raise gfapy.ValueError(
+        "the value {} cannot be represented as a GFA float".format(obj))
   elif isinstance(obj, float):
     if not math.isfinite(obj):
       raise gfapy.ValueError(
